@@ -559,17 +559,10 @@ func (env *Zlisp) CallResolved(funcobj Sexp, callName string, args []Sexp) error
 	return fmt.Errorf("not a function on top of datastack: '%T/%s'", funcobj, funcobj.SexpString(nil))
 }
 
-func (env *Zlisp) CallFunction(function *SexpFunction, nargs int) error {
-	for _, prehook := range env.before {
-		expressions, err := env.datastack.GetExpressions(nargs)
-		if err != nil {
-			return err
-		}
-		prehook(env, function.name, expressions)
-	}
-
-	// a dot path handed as an argument is resolved here, in the caller's
-	// scope, not while the callee binds its parameters.
+// resolveDotArgs resolves the dot paths among the top nargs arguments
+// on the data stack here, in the caller's scope, not while the callee
+// binds its parameters.
+func (env *Zlisp) resolveDotArgs(nargs int) error {
 	for i := 0; i < nargs; i++ {
 		idx := env.datastack.tos - i
 		if idx < 0 {
@@ -586,6 +579,21 @@ func (env *Zlisp) CallFunction(function *SexpFunction, nargs int) error {
 			}
 			env.datastack.elements[idx] = DataStackElem{v}
 		}
+	}
+	return nil
+}
+
+func (env *Zlisp) CallFunction(function *SexpFunction, nargs int) error {
+	for _, prehook := range env.before {
+		expressions, err := env.datastack.GetExpressions(nargs)
+		if err != nil {
+			return err
+		}
+		prehook(env, function.name, expressions)
+	}
+
+	if err := env.resolveDotArgs(nargs); err != nil {
+		return err
 	}
 	// do name and type checking
 	if function.inputTypes != nil && !function.varargs {
